@@ -16,7 +16,7 @@ EXPLANATION = (
     "Prefix::Expression is always Expression::Parentheses, else unreachable!() - holds on every layout path: no context "
     "with which an expression in prefix role reaches the parenthesis gate removes parentheses of any kind. (R-ONCE) no formatter is applied to a node that already came out of a formatter (rebuilt tokens have no source position: the range test and format_field's unreachable!() depend on it). (R-SLICE) no string / slice is indexed with an offset that comes from a caller-supplied Range / usize argument. Decides these clauses, not the behaviour: value-dependent panics (usize "
     "subtraction, unwrap on positions), stack depth and running time are not decided (census reported only)."
-    "Later rounds: (R-ONCE) through iterator items and closure parameters; (R-WASTE) no recursive formatter call has a result that is neither inspected nor returned on some path, beyond the ten trial-layout sites frozen in rules/frozen_waste.json (hoisted formatting is exponential in the nesting depth). Rounds 17-19: (R-TRIALSHAPE) trial layouts that used a bounded-cost shape on the pinned tree still do (rules/frozen_trialshape.json).")
+    "Later rounds: (R-ONCE) through iterator items and closure parameters; (R-WASTE) no recursive formatter call has a result that is neither inspected nor returned on some path, beyond the ten trial-layout sites frozen in rules/frozen_waste.json (hoisted formatting is exponential in the nesting depth). Rounds 17-19: (R-TRIALSHAPE) trial layouts that used a bounded-cost shape on the pinned tree still do (rules/frozen_trialshape.json). Rounds 20-21: (R-GUARD) frozen comment tests (they also keep `--[[ stylua: ignore ]]` statements off paths that assert FormatNode::Normal).")
 ASSUMPTIONS = [
     "rustc MIR and Instance::try_resolve are trusted",
     "full_moon only produces AST values its enum definitions (as compiled in the configuration) allow",
